@@ -281,6 +281,12 @@ impl ConfigOptions {
         }
 
         // validate chunker parameters
+        if config.chunk_size() == 0 {
+            return Err(RusticError::new(
+                ErrorKind::Unsupported,
+                "Chunk size must not be zero.",
+            ));
+        }
         if matches!(config.chunker(), Chunker::Rabin) {
             check_rabin_params(
                 config.chunk_size(),
